@@ -74,7 +74,9 @@ func id16(h string) (out [16]byte) {
 	return
 }
 
-func putBE32(b []byte, v uint32) { b[0], b[1], b[2], b[3] = byte(v>>24), byte(v>>16), byte(v>>8), byte(v) }
+func putBE32(b []byte, v uint32) {
+	b[0], b[1], b[2], b[3] = byte(v>>24), byte(v>>16), byte(v>>8), byte(v)
+}
 func putBE64(b []byte, v uint64) {
 	putBE32(b, uint32(v>>32))
 	putBE32(b[4:], uint32(v))
